@@ -44,10 +44,11 @@ Local Open Scope list_scope.
 
 Inductive units :=
 | ULocal (name : string) (refs : list string)          (* <units name><unit units=ref/>…</units>        *)
-| UImp (name url ref : string).                        (* <import href=url><units name units_ref=ref/>   *)
+| UImp (name : string) (sid : nat) (url ref : string).  (* <import href=url><units name units_ref=ref/>; sid = identity
+                                                          of the ImportSource object inside its model     *)
 
 Inductive comp :=
-| Comp (name : string) (imp : option (string * string)) (* Some (url, component_ref) for an import        *)
+| Comp (name : string) (imp : option (nat * string * string)) (* Some (sid, url, component_ref) for an import *)
        (used : list string)                             (* units names of its variables v0, v1, … in order *)
        (kids : list comp).                              (* encapsulated children                           *)
 
@@ -78,12 +79,12 @@ Definition mk_key (url : string) : string := String.append dir_prefix url.
 (* utilities.cpp: isStandardUnitName — over the table regenerated from utilities.h *)
 Definition is_std (n : string) : bool := existsb (fun p => String.eqb (fst p) n) standard_units_list.
 
-Definition uname (u : units) : string := match u with ULocal n _ => n | UImp n _ _ => n end.
+Definition uname (u : units) : string := match u with ULocal n _ => n | UImp n _ _ _ => n end.
 Definition cname (c : comp) : string := match c with Comp n _ _ _ => n end.
 Definition ckids (c : comp) : list comp := match c with Comp _ _ _ k => k end.
-Definition cimp (c : comp) : option (string * string) := match c with Comp _ i _ _ => i end.
+Definition cimp (c : comp) : option (nat * string * string) := match c with Comp _ i _ _ => i end.
 Definition cused (c : comp) : list string := match c with Comp _ _ u _ => u end.
-Definition u_is_import (u : units) : bool := match u with UImp _ _ _ => true | _ => false end.
+Definition u_is_import (u : units) : bool := match u with UImp _ _ _ _ => true | _ => false end.
 
 (* model.cpp: Model::units(name) — first units with that name *)
 Definition find_units (us : list units) (n : string) : option units :=
@@ -161,7 +162,7 @@ Definition equal_entities {A : Type} (eqb : A -> A -> bool) (this other : list A
 Definition units_equals (a b : units) : bool :=
   match a, b with
   | ULocal n r, ULocal n' r' => String.eqb n n' && Nat.eqb (length r) (length r') && greedy String.eqb r r'
-  | UImp n u r, UImp n' u' r' => String.eqb n n' && String.eqb r r' && String.eqb u u'
+  | UImp n _ u r, UImp n' _ u' r' => String.eqb n n' && String.eqb r r' && String.eqb u u'
   | _, _ => false
   end.
 
@@ -171,10 +172,10 @@ Fixpoint index_from {A : Type} (i : nat) (l : list A) : list (nat * A) :=
 (* variable.cpp: Variable::doEquals — variable i is named "v<i>" and carries units [used_i] by name *)
 Definition var_eqb (a b : nat * string) : bool := Nat.eqb (fst a) (fst b) && String.eqb (snd a) (snd b).
 
-Definition imp_eqb (a b : option (string * string)) : bool :=
+Definition imp_eqb (a b : option (nat * string * string)) : bool :=
   match a, b with
   | None, None => true
-  | Some (u, r), Some (u', r') => String.eqb r r' && String.eqb u u'
+  | Some (_, u, r), Some (_, u', r') => String.eqb r r' && String.eqb u u'
   | _, _ => false
   end.
 
@@ -210,7 +211,7 @@ Definition owner_eqb (a b : owner) : bool :=
   end.
 
 Inductive irule :=
-| R_MISSING_FILE | R_NULL_MODEL | R_UNSPECIFIED | R_ERROR_IMPORTING_UNITS | R_CYCLE (* IMPORT_EQUIVALENT_INFOSET *)
+| R_MISSING_FILE | R_NULL_MODEL | R_UNDEFINED | R_ERROR_IMPORTING_UNITS | R_CYCLE (* IMPORT_EQUIVALENT_INFOSET *)
 | R_MISSING_UNITS | R_MISSING_COMPONENT | R_UNRESOLVED_IMPORTS | R_UNDEFINED_MODEL.
 
 Inductive iitem :=
@@ -224,7 +225,7 @@ Record issue := { i_rule : irule; i_item : iitem }.
 
 Record state := {
   lib : list (string * model);          (* ImporterImpl::mLibrary (std::map; listed newest first)            *)
-  links : list (owner * string);        (* import sources whose mModel was set: (owning model, url)          *)
+  links : list (owner * nat);           (* import sources whose mModel was set: (owning model, sid)          *)
   issues_rev : list issue               (* Logger issues, newest first (all of level ERROR)                 *)
 }.
 
@@ -241,15 +242,15 @@ Definition add_issue (st : state) (r : irule) (it : iitem) : state :=
 
 Definition clear_issues (st : state) : state := {| lib := lib st; links := links st; issues_rev := [] |}.
 
-Definition has_link (st : state) (o : owner) (url : string) : bool :=
-  existsb (fun p => owner_eqb (fst p) o && String.eqb (snd p) url) (links st).
+Definition has_link (st : state) (o : owner) (sid : nat) : bool :=
+  existsb (fun p => owner_eqb (fst p) o && Nat.eqb (snd p) sid) (links st).
 
 (* importsource.cpp: ImportSource::model() — null when never set or when the library model died *)
-Definition linked_model (st : state) (o : owner) (url : string) : option model :=
-  if has_link st o url then lib_get (lib st) (mk_key url) else None.
+Definition linked_model (st : state) (o : owner) (sid : nat) (url : string) : option model :=
+  if has_link st o sid then lib_get (lib st) (mk_key url) else None.
 
-Definition set_link (st : state) (o : owner) (url : string) : state :=
-  {| lib := lib st; links := (o, url) :: links st; issues_rev := issues_rev st |}.
+Definition set_link (st : state) (o : owner) (sid : nat) : state :=
+  {| lib := lib st; links := (o, sid) :: links st; issues_rev := issues_rev st |}.
 
 Definition lib_add (st : state) (k : string) (m : model) : state :=
   {| lib := (k, m) :: lib st; links := links st; issues_rev := issues_rev st |}.
@@ -313,23 +314,24 @@ Inductive fm_result :=
 | FMok (st : state) (errs : list perr) (sm : model).
 
 (* importer.cpp: ImporterImpl::fetchModel (called from fetchImportSource when !hasModel()) *)
-Definition fetch_model (strict : bool) (fs : fsys) (st : state) (o : owner) (url : string) : fm_result :=
+Definition fetch_model (strict : bool) (fs : fsys) (st : state) (o : owner) (sid : nat) (url : string) : fm_result :=
   let k := mk_key url in
   match lib_get (lib st) k with
-  | Some sm => FMok (set_link st o url) [] sm
+  | Some sm => FMok (set_link st o sid) [] sm
   | None =>
     match fs_get fs k with
     | Missing => FMfail (add_issue st R_MISSING_FILE (ItImport o url))
-    | NotXml => FMfail (add_issue st (if strict then R_NULL_MODEL else R_UNSPECIFIED) (ItImport o url))
-    | Parsed errs sm => FMok (set_link (lib_add st k sm) o url) errs sm
+    | NotXml => FMfail (add_issue st (if strict then R_NULL_MODEL else R_UNDEFINED) (ItImport o url))
+    | Parsed errs sm => FMok (set_link (lib_add st k sm) o sid) errs sm
     end
   end.
 
 (* importer.cpp: ImporterImpl::fetchImportSource *)
-Definition fetch_import_source (strict : bool) (fs : fsys) (st : state) (o : owner) (url : string) : fm_result :=
-  match linked_model st o url with
+Definition fetch_import_source (strict : bool) (fs : fsys) (st : state) (o : owner) (sid : nat) (url : string)
+  : fm_result :=
+  match linked_model st o sid url with
   | Some sm => FMok st [] sm
-  | None => fetch_model strict fs st o url
+  | None => fetch_model strict fs st o sid url
   end.
 
 Definition related_units (ref : string) (e : perr) : bool :=
@@ -348,11 +350,11 @@ Fixpoint fetch_units (fuel : nat) (strict : bool) (fs : fsys) (m0 : model) (st :
          (hist : list epoch) (u : units) {struct fuel} : res (bool * state) :=
   match u with
   | ULocal _ _ => Ok (true, st)
-  | UImp name url ref =>
+  | UImp name sid url ref =>
     match fuel with
     | 0 => OutOfFuel
     | S f =>
-      match fetch_import_source strict fs st o url with
+      match fetch_import_source strict fs st o sid url with
       | FMfail st1 => Ok (false, st1)
       | FMok st1 errs sm =>
         (* the parser's errors were added and are removed again; one of them about the referenced units? *)
@@ -384,7 +386,7 @@ Fixpoint fetch_units (fuel : nat) (strict : bool) (fs : fsys) (m0 : model) (st :
                             | other => other
                             end
                           end
-                   end) (match su with ULocal _ refs => refs | UImp _ _ _ => [] end) st2
+                   end) (match su with ULocal _ refs => refs | UImp _ _ _ _ => [] end) st2
               | other => other
               end
             end
@@ -408,8 +410,8 @@ Fixpoint fetch_comp (fuel : nat) (strict : bool) (fs : fsys) (m0 : model) (st : 
             | [] => Ok (true, st)
             | k :: r => match walk k st with Ok (true, st') => wl r st' | other => other end
             end) kids st
-       | Comp name (Some (url, ref)) _ _ =>
-         match fetch_import_source strict fs st o url with
+       | Comp name (Some (sid, url, ref)) _ _ =>
+         match fetch_import_source strict fs st o sid url with
          | FMfail st1 => Ok (false, st1)
          | FMok st1 errs sm =>
            let sc := find_comp (m_comps sm) ref in
@@ -512,8 +514,8 @@ Fixpoint units_test (fuel : nat) (ty : ttype) (st : state) (m0 : model) (o : own
   | 0 => OutOfFuel
   | S f =>
     match u with
-    | UImp _ url ref =>
-      match linked_model st o url with
+    | UImp _ sid url ref =>
+      match linked_model st o sid url with
       | None => Ok (false, hist)
       | Some sm =>
         match find_units (m_units sm) ref with
@@ -550,7 +552,7 @@ Fixpoint referenced_units (fuel : nat) (cm : model) (u : units) {struct fuel} : 
   | 0 => OutOfFuel
   | S f =>
     match u with
-    | UImp _ _ _ => Ok []
+    | UImp _ _ _ _ => Ok []
     | ULocal _ refs =>
       (fix loop (refs : list string) : res (list uref) :=
          match refs with
@@ -627,8 +629,8 @@ Fixpoint comp_test (fuel : nat) (ty : ttype) (st : state) (m0 : model) (o : owne
   | S f =>
     (fix walk (c : comp) {struct c} : res bool :=
        match c with
-       | Comp _ (Some (url, ref)) _ _ =>
-         match linked_model st o url with
+       | Comp _ (Some (sid, url, ref)) _ _ =>
+         match linked_model st o sid url with
          | None => Ok false
          | Some sm =>
            match find_comp (m_comps sm) ref with
@@ -696,12 +698,12 @@ Definition is_defined (fuel : nat) (st : state) (m0 : model) : res bool := model
 (* ------------------------------------------------------------------------------------------ pre-flatten scan *)
 
 (* importer.cpp: ImporterImpl::resolvingUrl — the key of the linked model, or the raw URL *)
-Definition resolving_url (st : state) (o : owner) (url : string) : string :=
-  match linked_model st o url with Some _ => mk_key url | None => url end.
+Definition resolving_url (st : state) (o : owner) (sid : nat) (url : string) : string :=
+  match linked_model st o sid url with Some _ => mk_key url | None => url end.
 
-Definition scan_epoch (st : state) (o : owner) (url : string) : epoch :=
-  {| e_src := model_url o; e_dst := resolving_url st o url; e_srcm := o;
-     e_dstm := match linked_model st o url with Some _ => Some (mk_key url) | None => None end |}.
+Definition scan_epoch (st : state) (o : owner) (sid : nat) (url : string) : epoch :=
+  {| e_src := model_url o; e_dst := resolving_url st o sid url; e_srcm := o;
+     e_dstm := match linked_model st o sid url with Some _ => Some (mk_key url) | None => None end |}.
 
 (* importer.cpp: ImporterImpl::checkUnitsForCycles — true = an issue was found.  Never pops. *)
 Fixpoint check_units_for_cycles (fuel : nat) (st : state) (m0 : model) (o : owner) (cm : model)
@@ -723,12 +725,12 @@ Fixpoint check_units_for_cycles (fuel : nat) (st : state) (m0 : model) (o : owne
            | None => loop rest hist st
            end
          end) refs hist st
-    | UImp _ url ref =>
-      let h := scan_epoch st o url in
+    | UImp _ sid url ref =>
+      let h := scan_epoch st o sid url in
       if check_cycle st m0 hist h then Ok (true, hist, add_issue st R_CYCLE (ItImport o url))
       else
         let hist' := hist ++ [h] in
-        match linked_model st o url with
+        match linked_model st o sid url with
         | None => Ok (true, hist', add_issue st R_NULL_MODEL (ItImport o url))
         | Some sm =>
           match find_units (m_units sm) ref with
@@ -747,12 +749,12 @@ Fixpoint check_comp_for_cycles (fuel : nat) (st : state) (m0 : model) (o : owner
   | S f =>
     match c with
     | Comp _ None _ _ => Crash                   (* component->importSource() is null *)
-    | Comp _ (Some (url, ref)) _ _ =>
-      let h := scan_epoch st o url in
+    | Comp _ (Some (sid, url, ref)) _ _ =>
+      let h := scan_epoch st o sid url in
       if check_cycle st m0 hist h then Ok (true, add_issue st R_CYCLE (ItImport o url))
       else
         let hist' := hist ++ [h] in
-        match linked_model st o url with
+        match linked_model st o sid url with
         | None => Ok (true, add_issue st R_NULL_MODEL (ItImport o url))
         | Some sm =>
           match find_comp (m_comps sm) ref with
